@@ -2,10 +2,10 @@ SPECIFICATION Spec
 CONSTANTS
  Conns = {1, 2}
  Fds = {1, 2}
- MaxReload = 2
- MaxAccept = 2
+ MaxReload = 1
+ MaxAccept = 1
  FixNewSink = TRUE
  FixCloseOrder = TRUE
- FixCloseLock = TRUE
+ FixCloseLock = FALSE
 INVARIANT Safe
 CHECK_DEADLOCK FALSE
